@@ -245,6 +245,53 @@ def stateful_reuse(ctx, corr):
     corr.tag('stateful-reuse', len(seq))
 
 
+def stateful_failure(got, want, flags_then):
+    """independent oracle for the stateful suite: is check_output a function of (got, want, current flags)? looks for a
+    flag setting `first` such that checking the pair under `first` and then, on the SAME RuntimeState object, under
+    `flags_then` gives another verdict than a fresh object with `flags_then`"""
+    from xdoctest import checker, directive
+    fresh = bool(checker.check_output(got, want, directive.RuntimeState(dict(flags_then))))
+    for n in range(32):
+        rs = directive.RuntimeState()
+        for k, v in flagset(n).items():
+            rs[k] = v
+        checker.check_output(got, want, rs)
+        for k, v in flags_then.items():
+            rs[k] = v
+        again = bool(checker.check_output(got, want, rs))
+        if again != fresh:
+            return {'kind': 'stateful', 'got': got, 'want': want, 'first_flags': flagset(n), 'then_flags': dict(flags_then),
+                    'observed': 'verdict %s after an earlier check of the same pair under first_flags' % again,
+                    'expected_by_spec': 'verdict %s (what a fresh RuntimeState with then_flags gives): the relation depends on the texts and the enabled flags only' % fresh}
+    return None
+
+
+def stateful_hits(corr):
+    hits = []
+    for d in corr.disagreements:
+        if d['suite'] != 'check_output:stateful':
+            continue
+        i = d['input']
+        try:
+            f = stateful_failure(i['got'], i['want'], i['flags'])
+        except Exception:
+            f = None
+        if f:
+            hits.append({'kind': 'stateful', 'suite': 'check_output:stateful', 'input': f, 'expected': f['expected_by_spec'], 'impl': f['observed'],
+                         'why': 'check_output is not a function of (got, want, flags): ' + f['observed']})
+            if len(hits) >= 3:
+                break
+    return hits
+
+
+def replay_stateful(failing):
+    i = failing['input']
+    f = stateful_failure(i['got'], i['want'], i['then_flags'])
+    print('got=%r want=%r first_flags=%r then_flags=%r -> %s' % (i['got'], i['want'], i['first_flags'], i['then_flags'],
+                                                                 f['observed'] if f else 'same verdict as a fresh state'))
+    return f is not None
+
+
 def correspondence(ctx, corr):
     import xdoctest  # noqa
     tables.check(corr, {'isspace', 'linebreak', 'word', 'csi'})
@@ -429,7 +476,7 @@ def _fails(got, want):
 
 
 def search(ctx, corr, broken):
-    found = []
+    found = stateful_hits(corr)
     cands = []
     for d in corr.disagreements:
         i = d['input']
@@ -485,6 +532,8 @@ def search(ctx, corr, broken):
 
 
 def replay(ctx, failing):
+    if failing.get('kind') == 'stateful':
+        return replay_stateful(failing)
     i = failing['input']
     fs = list(law_failures(i['got'], i['want']))
     fs = [f for f in fs if classify(ctx, dict(f, input=i)) is None]
